@@ -149,6 +149,9 @@ def run(ctx):
         import statsync
         ctx.rule('STATSYNC', 'the per-insertion statistics record the same outcome that is reported (per build profile)')
         statsync.check(ctx, cfg, prog, 'STATSYNC', ctx.mod(cfg))
+        import hintstale
+        ctx.rule('HINTSTALE', 'a stale cell hint reaches the same fallback scan as no hint')
+        hintstale.check(ctx, cfg, prog, ctx.mod(cfg), 'HINTSTALE')
     ctx.note('TopologyGuarantee::Pseudomanifold has no Level-3 gate at completion (relies on ValidationPolicy::DebugOnly, '
              'i.e. nothing in release): observation, not a rule')
     return ctx.finish(EXPLANATION)
